@@ -35,32 +35,32 @@ type EntryCfg struct {
 
 // CheckCfg is harness/<id>/check.json.
 type CheckCfg struct {
-	Property    string            `json:"property"`
-	Packages    []string          `json:"packages"` // repo-relative package dirs loaded with bodies ("pkg/transport/wire")
-	Std         []string          `json:"std"`      // std / dependency packages loaded with bodies
-	Overlay     map[string]string `json:"overlay"`  // repo-relative virtual path -> file relative to the harness dir
-	Entries     []EntryCfg        `json:"entries"`
-	Level       string            `json:"level"`
-	Explanation string            `json:"explanation"`
-	Assumptions []string          `json:"assumptions"`
-	Bounds      map[string]string `json:"bounds"`
-	Stubs       []string          `json:"stubs"`
-	SkipInit    []string          `json:"skip_init"`
-	NoIntrinsic []string          `json:"no_intrinsic"`
-	Tags        []string          `json:"build_tags"`
-	TestTags    string            `json:"test_tags"`
-	MaxSteps    int               `json:"max_steps"`
-	MaxAlloc    int               `json:"max_alloc"`
-	MaxConcretize int             `json:"max_concretize"`
-	AssertTimeoutS int            `json:"assert_timeout_s"`
-	AssertTimeoutThoroughS int    `json:"assert_timeout_thorough_s"`
-	SelfTest    int               `json:"selftest"` // number of paths validated natively per entry (quick)
-	SelfTestT   int               `json:"selftest_thorough"`
-	TimeBudgetS int               `json:"time_budget_s"`
-	TimeBudgetThoroughS int       `json:"time_budget_thorough_s"`
-	NoSpeculate bool              `json:"no_speculate"`
-	AbstractCRC bool              `json:"abstract_crc"`
-	Replace     map[string]string `json:"replace"` // module path -> directory (relative to the harness dir) used via a generated -modfile
+	Property               string            `json:"property"`
+	Packages               []string          `json:"packages"` // repo-relative package dirs loaded with bodies ("pkg/transport/wire")
+	Std                    []string          `json:"std"`      // std / dependency packages loaded with bodies
+	Overlay                map[string]string `json:"overlay"`  // repo-relative virtual path -> file relative to the harness dir
+	Entries                []EntryCfg        `json:"entries"`
+	Level                  string            `json:"level"`
+	Explanation            string            `json:"explanation"`
+	Assumptions            []string          `json:"assumptions"`
+	Bounds                 map[string]string `json:"bounds"`
+	Stubs                  []string          `json:"stubs"`
+	SkipInit               []string          `json:"skip_init"`
+	NoIntrinsic            []string          `json:"no_intrinsic"`
+	Tags                   []string          `json:"build_tags"`
+	TestTags               string            `json:"test_tags"`
+	MaxSteps               int               `json:"max_steps"`
+	MaxAlloc               int               `json:"max_alloc"`
+	MaxConcretize          int               `json:"max_concretize"`
+	AssertTimeoutS         int               `json:"assert_timeout_s"`
+	AssertTimeoutThoroughS int               `json:"assert_timeout_thorough_s"`
+	SelfTest               int               `json:"selftest"` // number of paths validated natively per entry (quick)
+	SelfTestT              int               `json:"selftest_thorough"`
+	TimeBudgetS            int               `json:"time_budget_s"`
+	TimeBudgetThoroughS    int               `json:"time_budget_thorough_s"`
+	NoSpeculate            bool              `json:"no_speculate"`
+	AbstractCRC            bool              `json:"abstract_crc"`
+	Replace                map[string]string `json:"replace"` // module path -> directory (relative to the harness dir) used via a generated -modfile
 }
 
 // prepareModfile writes dst/go.mod + go.sum (copies of the repo's, plus replace directives) and
@@ -113,10 +113,10 @@ type runCfg struct {
 }
 
 type stats struct {
-	mu             sync.Mutex
-	queries        int
-	unknownBranch  int
-	maxAlloc       int
+	mu               sync.Mutex
+	queries          int
+	unknownBranch    int
+	maxAlloc         int
 	specOK, specFail int
 }
 
@@ -143,17 +143,17 @@ type intrinsic func(e *Exec, fr *frame, args []Value) Value
 
 // Program is the loaded SSA program plus the shared work list of one entry run.
 type Program struct {
-	ssaProg  *ssa.Program
-	fset     *token.FileSet
-	pkgs     map[string]*ssa.Package
-	cfg      runCfg
-	check    *CheckCfg
-	stats    stats
-	intrinsics   map[string]intrinsic
-	noopPrefixes []string
+	ssaProg        *ssa.Program
+	fset           *token.FileSet
+	pkgs           map[string]*ssa.Package
+	cfg            runCfg
+	check          *CheckCfg
+	stats          stats
+	intrinsics     map[string]intrinsic
+	noopPrefixes   []string
 	runtimeErrType types.Type
 	opaqueErrType  *types.Named
-	harnessFiles map[string]bool // absolute virtual paths of overlay harness files
+	harnessFiles   map[string]bool // absolute virtual paths of overlay harness files
 
 	mu      sync.Mutex
 	work    [][]uint64
@@ -524,24 +524,25 @@ type selfSample struct {
 }
 
 type entryResult struct {
-	Entry       string
-	Paths       int
-	Ends        map[string]int
-	Queries     int
-	Asserts     int
-	AssertsSeen int
-	Violations  []violation
-	Reached     map[string]bool
-	Required    []string
+	Entry        string
+	Paths        int
+	Ends         map[string]int
+	Queries      int
+	Asserts      int
+	AssertsSeen  int
+	Violations   []violation
+	Reached      map[string]bool
+	Required     []string
 	Inconclusive []string
-	Funcs       map[string]bool
-	Warnings    map[string]int
-	SolverTime  time.Duration
-	Wall        time.Duration
-	Steps       int
-	Samples     []*selfSample
-	MaxAlloc    int
-	PathSamples []string
+	Partial      []string
+	Funcs        map[string]bool
+	Warnings     map[string]int
+	SolverTime   time.Duration
+	Wall         time.Duration
+	Steps        int
+	Samples      []*selfSample
+	MaxAlloc     int
+	PathSamples  []string
 }
 
 func (p *Program) findFunc(full string) *ssa.Function {
@@ -721,7 +722,14 @@ func (p *Program) runEntry(ec EntryCfg, workers int, solverBin string, logDir st
 						if len(p.work) > 0 || p.active > 0 {
 							rmu.Lock()
 							if len(hard) < 4 {
-								res.Inconclusive = append(res.Inconclusive, fmt.Sprintf("budget: stopped after %d paths, %d prefixes pending", res.Paths, len(p.work)))
+								msg := fmt.Sprintf("budget: stopped after %d paths, %d prefixes pending", res.Paths, len(p.work))
+								if p.cfg.Thorough && res.Paths < maxPaths {
+									// thorough tier: the time budget bounds the exploration; what was explored held,
+									// the rest is reported as NOT explored (never as success of the full bound)
+									res.Partial = append(res.Partial, msg)
+								} else {
+									res.Inconclusive = append(res.Inconclusive, msg)
+								}
 							}
 							rmu.Unlock()
 						}
